@@ -384,6 +384,38 @@ def state_obligations(pid, tier, seed):
     return {'obligations': obs, 'bounds': bounds}
 
 
+# ---------------------------------------------------------------------------
+# C18: checkers
+
+def corrupt_obligations(pid, tier, seed):
+    from harness import h_corrupt
+    obs = []
+    t = 200 if tier == 'quick' else 1200
+    sh, bounds = tree_shapes(tier, seed, quick_extra=(5, 2))
+    for impl in ('c', 'py'):
+        for kind, tag, tpl, hist, L, I in sh:
+            m = shapes.n_ranks(tpl)
+            base = '%s/%s/%s/%s%s/%s' % (pid, impl, kind, tag, '' if (L, I) == (2, 2) else '%d%d' % (L, I), sid(tpl))
+            P = dict(family='OO', impl=impl, kind=kind, tpl=tpl, L=L, I=I, prov='loaded')
+            if tpl[0] != 'T':
+                obs.append(dict(id=base + '/pristine', mod='h_corrupt', fn='corrupt_step', nk=m, args=[('p', 'int'), ('q', 'int')],
+                                pre=['p == 0', 'q == 0'], params=dict(P, cls='pristine', np=1, nq=1), timeout=t))
+                if tpl[0] == 'E':
+                    continue
+            for cls in h_corrupt.CLASSES:
+                np_, nq = h_corrupt.positions(tpl, cls)
+                if np_ <= 0:
+                    continue
+                if tier == 'quick' and tag != 'core' and cls in ('redirect', 'firstbucket', 'kind'):
+                    continue
+                args = [('p', 'int'), ('q', 'int')] + ([('x', 'int')] if cls in ('key', 'sep') else [])
+                pre = ['0 <= p < %d' % np_, '0 <= q < %d' % nq]
+                obs.append(dict(id=base + '/' + cls, mod='h_corrupt', fn='corrupt_step', nk=m, args=args, pre=pre,
+                                params=dict(P, cls=cls, np=np_, nq=nq), timeout=t))
+    bounds.update(corruption_classes=h_corrupt.CLASSES, single_corruption=True)
+    return {'obligations': obs, 'bounds': bounds}
+
+
 COMMON_ASSUME = [
     'key objects are observed by the containers only through rich comparison, identity and None-ness '
     '(true for the object-key templates; native-key families are covered by their own obligations where stated)',
@@ -495,5 +527,19 @@ PROPS = {
                    'Bucket.__getstate__/__setstate__, Set.__getstate__/__setstate__, _Base.__reduce__/_BTree_reduce_as'],
         assumptions=COMMON_ASSUME + ['pickle itself is outside the repository; it is exercised on one solver-chosen concrete '
                                      'witness per explored path'],
+    ),
+    'C18': dict(
+        families=['OO'],
+        gen=lambda tier, seed: corrupt_obligations('C18', tier, seed),
+        explanation='Every catalogue shape with symbolic keys is first shown to be accepted by _check() and BTrees.check.check(); '
+                    'then ONE corruption of a solver-chosen class instance is applied to the state of one node and loaded through '
+                    '__setstate__: replace the key at a solver-chosen position by a symbolic key, swap adjacent keys, duplicate a '
+                    'key (inside a leaf or across a leaf boundary), replace a separator by a symbolic key, drop a next link, '
+                    'redirect a next link to a solver-chosen leaf, empty a leaf, point a firstbucket at a solver-chosen leaf, wrap a '
+                    'leaf child in an interior node (mixed child kinds). Oracle: the independent walker. Walker-invalid implies a '
+                    'checker raises AssertionError; walker-valid (the symbolic key landed in range) implies both accept.',
+        functions=['BTrees.check: check, Checker.check_sorted, Walker.walk, crack_btree, crack_bucket, classify', '_OOBTree.so: BTree_check, '
+                   'BTree_check_inner', 'BTrees._base: _Tree._check'],
+        assumptions=COMMON_ASSUME + ['single corruption of a state reachable through __setstate__'],
     ),
 }
